@@ -85,6 +85,10 @@ def run(ctx, chk):
     ex = Ex(b)
     import pathsym as ps
     pe = ps.PathEval(b)
+    # the parameters of into_stream(path, password, adpu_size, src), under whatever names the source gives them
+    outer = zvt.bodies.get(b.raw.get("root") or WF.split("::{closure")[0])
+    P_PASSWORD = (outer.local_name(2) if outer is not None else None) or "password"
+    P_ADPU = (outer.local_name(3) if outer is not None else None) or "adpu_size"
 
     def pre_expr(e):
         """Ex expression (path-insensitive) of a value defined before the evaluated path."""
@@ -153,7 +157,7 @@ def run(ctx, chk):
             wf = agg_named(pk, "zvt::feig::packets::WriteFile::WriteFile")
             inner = agg_named(pk, "zvt::feig::packets::tlv::WriteFile::WriteFile")
             good = bool(wf) and bool(inner) and show(strip_ref(fld(inner[0], "files"))) == show(strip_ref(vec_arg)) and \
-                strip_ref(fld(wf[0], "password"))[0] == "path" and strip_ref(fld(wf[0], "password"))[1] == "password"
+                strip_ref(fld(wf[0], "password"))[0] == "path" and strip_ref(fld(wf[0], "password"))[1] == P_PASSWORD
             chk.require(good, "C11-b/manifest-sent", "WriteFile", "the packet sent does not carry the manifest vector / the caller's password",
                         "WriteFile{password, files}", wacks[0][1].get("sp"))
             chk.require(b.dominates(bb, wacks[0][0]) or wacks[0][0] in b.reachable(bb), "C11-b/manifest-complete", "WriteFile",
@@ -212,7 +216,7 @@ def run(ctx, chk):
                                 key_ok = req_chain(g[2][1], "file_id")
                         bx = pre_expr(base)
                         buf_ok = base == buf_e and bx is not None and strip_ref(bx)[0] == "call" and strip_ref(bx)[1] == "alloc::vec::from_elem" and \
-                            any(x[0] == "path" and x[1] == "adpu_size" for x in walk(strip_ref(bx)[2][1]))
+                            any(x[0] == "path" and x[1] == P_ADPU for x in walk(strip_ref(bx)[2][1]))
                         o = off_e
                         while o[0] == "cast":
                             o = ps.core(o[1])
